@@ -31,7 +31,7 @@ from harness.common import clist
 PROPERTY = "C07"
 LEVEL = "proof"
 
-REQ = ["OV.Graph.Syntax", "OV.Graph.Wf", "OV.Rewrite.Apply", "OV.Rewrite.Order", "OV.Rewrite.State", "OV.Rewrite.Multi"]
+REQ = ["OV.Graph.Syntax", "OV.Graph.Wf", "OV.Rewrite.Apply", "OV.Rewrite.Order", "OV.Rewrite.State", "OV.Rewrite.Multi", "OV.Rewrite.FnConstIn"]
 
 
 # ----------------------------------------------------------------------------- running models
@@ -123,6 +123,26 @@ def _feeds(model, rng, k):
                 f[i.name] = np.array([[rng.randint(-3, 3) for _ in range(int(np.prod(shape)) or 1)]],
                                      dtype=np.float32).reshape(shape)
         res.append(f)
+    return res
+
+
+def _override_feeds(model, rng, base):
+    """Feeds that also give a value to every OVERRIDABLE graph input (an initializer listed among the graph inputs,
+    ir_version >= 4: the initializer is only a default): each base feed once more with values different from the
+    defaults.  The property quantifies over every input of the model, these included."""
+    from onnx import numpy_helper
+    inits = {i.name: i for i in model.graph.initializer}
+    over = [i.name for i in model.graph.input if i.name in inits]
+    if not over:
+        return []
+    res = []
+    for f in base:
+        g = dict(f)
+        for name in over:
+            d = numpy_helper.to_array(inits[name])
+            delta = np.array([rng.choice([-3, -2, -1, 1, 2, 3]) for _ in range(d.size or 1)]).reshape(d.shape)
+            g[name] = np.asarray(d + delta.astype(d.dtype), dtype=d.dtype).reshape(d.shape)
+        res.append(g)
     return res
 
 
@@ -663,6 +683,10 @@ def eval_host(ctx, label, host, families, rng, stream="gen", want_ref=True, chec
         bad("unmatched-node-metadata-changed", "; ".join(frame_bad[:4]))
     # -- equivalence (the property itself)
     feeds = _feeds(model, rng, 3)
+    n_default = len(feeds)
+    feeds = feeds + _override_feeds(model, rng, feeds[:2])        # (no draw from rng unless the host has overridable inputs)
+    if ctx is not None:
+        MULTI["override_feeds"] += len(feeds) - n_default
     try:
         new_x = _runnable(new)
         # one session per model for all feeds (the models do not change between feeds)
@@ -673,8 +697,11 @@ def eval_host(ctx, label, host, families, rng, stream="gen", want_ref=True, chec
             want = s_old.run(None, f)
             got = s_new.run(None, f)
             if not _same(want, got, approx):
-                bad("not-equivalent", "onnxruntime: outputs differ before/after: "
-                    f"{[np.asarray(a).ravel()[:4].tolist() for a in want]} vs {[np.asarray(a).ravel()[:4].tolist() for a in got]}")
+                overridden = sorted(set(f) & {i.name for i in model.graph.initializer})
+                bad("not-equivalent", "onnxruntime: outputs differ before/after"
+                    + (f" when the caller overrides the default of graph input(s) {overridden}" if overridden else "") + ": "
+                    f"{[np.asarray(a).ravel()[:4].tolist() for a in want]} vs {[np.asarray(a).ravel()[:4].tolist() for a in got]}"
+                    f" on feed { {k: np.asarray(v).ravel()[:4].tolist() for k, v in f.items()} }")
                 break
             if want_ref:
                 if r_old is None:
@@ -778,10 +805,11 @@ def reference_instances(host, families):
                 # basic_constant_propagation gives a const_value to the initializers and to the outputs of the Constant
                 # nodes of the TOP level of the main graph / of a function (not to Constant nodes inside If/Loop bodies)
                 for k, a in g.inits.items():
-                    consts[k] = float(a)
+                    if np.size(a) == 1 and k not in {nm for nm, _ in g.ins}:      # (listed as a graph input: a default only)
+                        consts[k] = float(np.asarray(a).ravel()[0])
                 for n in g.nodes:
-                    if n.op == "Constant":
-                        consts[n.outs[0]] = float(n.attrs["value"])
+                    if n.op == "Constant" and np.size(n.attrs["value"]) == 1:
+                        consts[n.outs[0]] = float(np.asarray(n.attrs["value"]).ravel()[0])
                 top_consts = consts
             else:
                 # a nested graph sees the constants of the top level of its container (the same Value objects)
@@ -809,6 +837,7 @@ SORT_CASES = []            # (label, token graph before Graph.sort, after it, re
 MULTI = collections.Counter()
 REPLAY_STATS = {}
 STATE_DIFF = {}            # label -> (code, event index, differing component) of the last coq_replay
+COPIED_INPUTS = []         # sweeps in which an as_function extraction copied a GRAPH INPUT into the function body (last coq_replay)
 
 
 def probe_flags():
@@ -863,19 +892,25 @@ def coq_replay(ctx, cases, shard=40):
         # splices, as OV.Rewrite.State predicts it, against the state observed when the sweep ended
         lst = clist([f"({i}, {'check_state_m' if mu[i] else 'check_state'} {FLAGS[0]} {clist([str(t) for t in chunk[i][5]['tops']])} ev_{i} g0_{i} s0_{i} gf_{i} sf_{i})" for i in range(len(chunk))])
         lines.append(f"Eval vm_compute in (filter (fun r => negb (Nat.eqb (fst (fst (snd r))) 0 && Nat.eqb (snd (snd r)) 0)) {lst}).")
+        # as_function: no copied value is a graph input of the container (FnConstIn.copied_not_inputs_okb; hypothesis of
+        # C07_as_function_copied_initializers_sound, necessary by C07_copied_graph_input_refuted)
+        lst = clist([f"({i}, {'mevents_copied_okb' if mu[i] else 'events_copied_okb'} (g_ins g0_{i}) ev_{i})" for i in range(len(chunk))])
+        lines.append(f"Eval vm_compute in (map fst (filter (fun r => negb (snd r)) {lst})).")
         bodies.append("\n".join(lines))
         labels.append([c[0] for c in chunk])
     failing = {}
     uncovered = 0
     unordered = []
     STATE_DIFF.clear()
+    COPIED_INPUTS.clear()
     if not bodies:
         return failing, uncovered, unordered
     outs = ctx.coq_eval_shards(REQ, bodies, par=8)
     for (ok, vals, raw), labs in zip(outs, labels):
-        if not ok or len(vals) < 4:
+        if not ok or len(vals) < 5:
             ctx.tie_broken("correspondence", "apply:model-evaluation", raw[-1500:])
             return None, 0, []
+        COPIED_INPUTS.extend(labs[i] for i in common.parse_nat_list(vals[4]))
         for m in re.finditer(r"\((\d+),\s*\(?(\d+),\s*(\d+),\s*(\d+)\)?\)", re.sub(r"%\w+", "", vals[3])):
             STATE_DIFF[labs[int(m.group(1))]] = (int(m.group(2)), int(m.group(3)), int(m.group(4)))
         unordered += [labs[i] for i in common.parse_nat_list(vals[2])]
@@ -1444,6 +1479,214 @@ def stream_targeted(ctx, fixed_cases=None, fixed_wf=None):
     ctx.case(("targeted", "empty-rule-list"))
 
 
+
+# ---- fixed hosts: (1) as_function over OVERRIDABLE graph inputs, (2) multi-output pattern nodes with unnamed outputs
+
+def _half_rewritten(model, fam):
+    """After rewrite() raised: the same rule on an IR model, container compared before / after the exception (the property:
+    exactly the matched nodes are removed -- an exception part-way must not leave new nodes beside the old ones)."""
+    from onnxscript import ir
+    from onnxscript.rewriter import pattern as orp
+
+    def snap(mi):
+        out = []
+
+        def gr(g, where):
+            for n in g:
+                out.append((where, n.op_type, tuple(v.name if v is not None else "" for v in n.inputs), tuple(v.name for v in n.outputs)))
+                for a in n.attributes.values():
+                    if isinstance(a, ir.Attr) and a.type == ir.AttributeType.GRAPH:
+                        gr(a.value, where + "/" + n.op_type)
+        gr(mi.graph, "main")
+        for f in mi.functions.values():
+            gr(f, "function:" + f.name)
+        return out
+    try:
+        mi = ir.serde.deserialize_model(copy.deepcopy(model))
+        before = snap(mi)
+        boxes = G.make_rule_set([fam])
+        try:
+            orp.RewriteRuleSet([b.rule for b in boxes]).apply_to_model(mi)
+            return ""
+        except Exception:
+            after = snap(mi)
+        if after == before:
+            return " (container unchanged by the failed call)"
+        added = [a for a in after if a not in before]
+        gone = [b for b in before if b not in after]
+        return (f" -- container left HALF-REWRITTEN by the failed call: {len(before)} nodes before, {len(after)} after; "
+                f"inserted {[(a[1], list(a[3])) for a in added][:4]}, removed {[(b[1], list(b[3])) for b in gone][:4]}, "
+                "matched nodes still present, uses already moved to the replacement")
+    except Exception as e:  # the comparison is additional evidence only
+        return f" (before/after comparison failed: {type(e).__name__})"
+
+
+def _run_fixed(ctx, stream, label, host, fam, case_key, expect, cases, wf, extra_replay=None):
+    """One fixed host through every oracle of eval_host.  expect: 'fire' / 'alone' (the rule must leave the host exactly
+    as it is) / None."""
+    import random
+    res, model = eval_host(ctx, label, host, [fam], random.Random(23), stream=stream)
+    ctx.case((stream,) + tuple(case_key) + (min(res.count or 0, 2),))
+    replay = dict({"stream": stream, "family": fam, "label": label, "model": model.SerializeToString().hex()}, **(extra_replay or {}))
+    for key, what in res.violations:
+        if res.exc is not None:
+            what += _half_rewritten(model, fam)
+        ctx.violation(key, f"{label}: {what}", replay)
+        TARGETED_VIOLATED.add(label)              # the property oracle produced the failing input: replay not reported
+    if not res.violations and expect == "fire" and not res.count:
+        ctx.violation(f"C07:{stream}:no-progress:{fam}:{':'.join(map(str, case_key[1:]))}",
+                      f"{label}: the only (removable) instance of the pattern did not fire", replay)
+    if not res.violations and expect == "alone":
+        # (rewrite() drops Constant nodes nothing reads: by design)
+        same = res.new is not None and [(w, _node_sig(n)) for w, n in _model_nodes(model) if n.op_type != "Constant"] == \
+            [(w, _node_sig(n)) for w, n in _model_nodes(res.new) if n.op_type != "Constant"]
+        if res.count or not same:
+            ctx.violation(f"C07:{stream}:non-removable-instance-rewritten:{fam}:{':'.join(map(str, case_key[1:]))}",
+                          f"{label}: an output of a matched node that the replacement does not provide is still read (by an unmatched "
+                          f"node / a nested graph / as a graph output): the instance is not removable, yet {res.count} application(s) "
+                          "were made or the node lists differ", replay)
+    for u in res.unmodelled:
+        ctx.tie_broken("correspondence", "apply:unmodelled", f"{label}: {u}")
+    cases.extend(res.coq_cases)
+    wf.extend(res.wf_terms)
+    return res
+
+
+def stream_overridable(ctx, cases, wf):
+    """as_function rules on hosts whose matched operands are OVERRIDABLE graph inputs (an initializer that is also listed in
+    graph.input: const_value is set, but it is only a default).  eval_host runs default AND overriding feeds on onnxruntime
+    and onnx.reference; the replay evaluates State.fn_okb and FnConstIn.events_copied_okb (a value that is a graph input is
+    never copied into the function body, whatever its const_value)."""
+    N = G.HNode
+
+    def inst(fam, x, y, p):
+        if fam == "chain2_fn":
+            return [N("Abs", [x], [p + "a"]), N("Neg", [p + "a"], [p + "o"])]
+        if fam == "bin_fn":
+            return [N("Relu", [x], [p + "r"]), N("Sub", [p + "r", y], [p + "o"])]
+        if fam == "dag_a_fn":
+            return [N("Add", [x, y], [p + "s"]), N("Sigmoid", [p + "s"], [p + "g"]), N("Mul", [p + "s", p + "g"], [p + "o"])]
+        if fam == "dag3_fn":
+            return [N("Abs", [x], [p + "a"]), N("Neg", [p + "a"], [p + "t"]), N("Mul", [p + "a", p + "t"], [p + "m"]),
+                    N("Add", [p + "m", p + "a"], [p + "o"])]
+        if fam == "two_out_fn":
+            return [N("Abs", [x], [p + "a"]), N("Neg", [p + "a"], [p + "n"]), N("Relu", [p + "a"], [p + "r"]),
+                    N("Add", [p + "n", p + "r"], [p + "o"])]
+        if fam == "scale_fn":
+            return [N("Abs", [x], [p + "a"]), N("Mul", [p + "a", y], [p + "o"])]
+        raise AssertionError(fam)
+
+    w_full = (np.arange(9, dtype=np.float32).reshape(3, 3) - 3)
+    n = 0
+    for fam in ("chain2_fn", "bin_fn", "dag_a_fn", "dag3_fn", "two_out_fn", "scale_fn"):
+        nv = G.FAMILIES[fam]["nv"]
+        operands = [("w0", "x1"), ("x0", "w0"), ("w0", "w0")] if nv == 2 else [("w0", "x1")]
+        if fam == "scale_fn":
+            operands = [("x0", "w0"), ("w0", "w0")]            # the constant operand: a scalar default
+        for x, y in operands:
+            for where in ("main", "if", "loop"):
+                scalar = fam == "scale_fn"
+                w = np.array(2.0, dtype=np.float32) if scalar else w_full
+                base_ins = [("x0", "t"), ("x1", "t"), ("w0", "f0" if scalar else "t"), ("cond", "b"), ("trip", "i")]
+                if where == "main":
+                    g = G.HGraph(base_ins, inst(fam, x, y, "m") + [N("Add", ["mo", "x1"], ["out"])], [("out", "t")], {"w0": w})
+                elif where == "if":
+                    tb = G.HGraph([], inst(fam, x, y, "t") + [N("Add", ["to", "x1"], ["tz"])], [("tz", "t")])
+                    eb = G.HGraph([], [N("Sub", ["x0", "w0"], ["eo"])], [("eo", "t")])
+                    g = G.HGraph(base_ins, [N("If", ["cond"], ["out"], {}, {"then_branch": tb, "else_branch": eb})], [("out", "t")], {"w0": w})
+                else:
+                    body = G.HGraph([("it", "i"), ("ci", "b"), ("s_in", "t")],
+                                    inst(fam, x, y, "b") + [N("Add", ["bo", "s_in"], ["bz"]), N("Identity", ["ci"], ["co"])],
+                                    [("co", "b"), ("bz", "t")])
+                    g = G.HGraph(base_ins, [N("Loop", ["trip", "", "x0"], ["out"], {}, {"body": body})], [("out", "t")], {"w0": w})
+                host = G.Host(g, [], {"overridable-input"})
+                label = f"over:{fam}:{x}-{y}:{where}"
+                # scale_fn needs a constant operand: an overridable input is NOT one for every input, but the rule's own
+                # condition (const_value is not None) accepts it -- the generated rule's choice, so no progress claim there
+                _run_fixed(ctx, "overridable", label, host, fam, (fam, f"{x}-{y}", where), None if fam == "scale_fn" else "fire", cases, wf)
+                n += 1
+    ctx.cover(overridable_input_hosts=n)
+
+
+def stream_partial_outputs(ctx, cases, wf):
+    """Rules whose pattern output comes from a node with several outputs of which only some are pattern outputs
+    (`values, _ = TopK(..)`), remove_nodes=True and keeping, on hosts where the unnamed output is (a) unused, (b) read by an
+    unmatched node, (c) a graph / function output, (d) read inside a nested graph -- in the main graph, an If branch, a Loop
+    body, a function.  Expected: (a) the rule fires; (b)-(d) the instance is left alone (keeping rule: fires, nodes stay);
+    never an exception, never a half-rewritten container."""
+    N = G.HNode
+    K = N("Constant", [], ["k"], {"value": np.array([3], dtype=np.int64)})
+
+    def inst(fam, x, p):
+        """nodes, named output (+ its kind), unnamed output (+ its kind)"""
+        if fam in ("drop_part", "drop_part_keep"):
+            return [N("Neg", [x], [p + "1"]), N("Neg", [p + "1"], [p + "2"]), N("Dropout", [p + "2"], [p + "v", p + "m"])], (p + "v", "t"), (p + "m", "tb")
+        if fam == "topk_part":
+            return [N("Neg", [x], [p + "1"]), N("Neg", [p + "1"], [p + "2"]), N("TopK", [p + "2", "k"], [p + "v", p + "i"])], (p + "v", "t"), (p + "i", "ti")
+        if fam == "topk_idx":
+            return [N("Abs", [x], [p + "1"]), N("TopK", [p + "1", "k"], [p + "v", p + "i"])], (p + "i", "ti"), (p + "v", "t")
+        raise AssertionError(fam)
+
+    def fl(v, kind, out):
+        return N("Abs", [v], [out]) if kind == "t" else N("Cast", [v], [out], {"to": 1})
+
+    def level(fam, x, p, variant, result):
+        """nodes of one graph level computing `result` ([3,3] float) from the instance; second value for variant c"""
+        ns, (nm, nk), (ex, ek) = inst(fam, x, p)
+        ns = ns + [fl(nm, nk, p + "n")]
+        if variant == "a":
+            ns.append(N("Identity", [p + "n"], [result]))
+        elif variant == "b":
+            ns += [fl(ex, ek, p + "e"), N("Add", [p + "n", p + "e"], [result])]
+        elif variant == "c":
+            ns.append(N("Identity", [p + "n"], [result]))
+        else:
+            tb = G.HGraph([], [fl(ex, ek, p + "te"), N("Add", [p + "n", p + "te"], [p + "to"])], [(p + "to", "t")])
+            eb = G.HGraph([], [N("Neg", [p + "n"], [p + "eo"])], [(p + "eo", "t")])
+            ns.append(N("If", ["cond"], [result], {}, {"then_branch": tb, "else_branch": eb}))
+        return ns, (ex, ek)
+
+    base_ins = [("x0", "t"), ("x1", "t"), ("cond", "b"), ("trip", "i")]
+    n = 0
+    for fam in ("drop_part", "topk_part", "topk_idx"):
+        keep = G.FAMILIES[fam].get("keep")
+        for variant in ("a", "b", "c", "d"):
+            for where in ("main", "if", "loop", "function"):
+                if variant == "c" and where in ("if", "loop"):
+                    continue                      # (an output of another type would be needed in both branches / as a scan output)
+                if keep and (where != "main" and variant != "b"):
+                    continue
+                if where == "main":
+                    ns, (ex, ek) = level(fam, "x0", "m", variant, "out")
+                    g = G.HGraph(list(base_ins), [K] + ns, [("out", "t")] + ([(ex, ek)] if variant == "c" else []))
+                    host = G.Host(g, [], set())
+                elif where == "if":
+                    ns, _ = level(fam, "x0", "t", variant, "tres")
+                    tb = G.HGraph([], ns, [("tres", "t")])
+                    eb = G.HGraph([], [N("Sub", ["x0", "x1"], ["eo"])], [("eo", "t")])
+                    g = G.HGraph(list(base_ins), [K, N("If", ["cond"], ["out"], {}, {"then_branch": tb, "else_branch": eb})], [("out", "t")])
+                    host = G.Host(g, [], set())
+                elif where == "loop":
+                    ns, _ = level(fam, "s_in", "b", variant, "bres")
+                    body = G.HGraph([("it", "i"), ("ci", "b"), ("s_in", "t")], ns + [N("Identity", ["ci"], ["co"])], [("co", "b"), ("bres", "t")])
+                    g = G.HGraph(list(base_ins), [K, N("Loop", ["trip", "", "x0"], ["out"], {}, {"body": body})], [("out", "t")])
+                    host = G.Host(g, [], set())
+                else:
+                    ns, (ex, ek) = level(fam, "fa", "q", variant, "fres")
+                    cond_c = N("Constant", [], ["cond"], {"value": np.array(True)})
+                    fg = G.HGraph([("fa", "t"), ("fb", "t")], [K] + ([cond_c] if variant == "d" else []) + ns,
+                                  [("fres", "t")] + ([(ex, ek)] if variant == "c" else []))
+                    call_outs = ["out"] + (["out2"] if variant == "c" else [])
+                    g = G.HGraph(list(base_ins), [N("F0", ["x0", "x1"], call_outs, domain=G.DOM_HOST)],
+                                 [("out", "t")] + ([("out2", ek)] if variant == "c" else []))
+                    host = G.Host(g, [("F0", fg)], set())
+                label = f"partial:{fam}:{variant}:{where}"
+                expect = "fire" if (variant == "a" or keep) else "alone"
+                _run_fixed(ctx, "partial", label, host, fam, (fam, variant, where), expect, cases, wf)
+                n += 1
+    ctx.cover(partial_output_hosts=n)
+
+
 # ---- a replacement that returns an existing value: object-level naming model (OV.Rewrite.Naming.splice_names)
 
 RETURNED_SCENARIOS = [
@@ -1735,6 +1978,8 @@ def container_plan(ctx):
     plan = []
     for fam in sorted(G.FAMILIES):
         spec = G.FAMILIES[fam]
+        if spec.get("partial"):
+            continue                                     # fixed hosts of stream_partial_outputs (other operand kinds)
         multi = bool(spec.get("roots")) or fam in G._DAG or spec.get("keep")
         for where in G.CONTAINERS:
             if where == "main" and not (spec.get("new_init") or spec.get("roots")):
@@ -1877,6 +2122,10 @@ def run(ctx):
     stream_history(ctx)
     stream_repeated(ctx, wf, meta)
     lap("targeted")
+    stream_overridable(ctx, cases, wf)
+    stream_partial_outputs(ctx, cases, wf)
+    violated |= TARGETED_VIOLATED
+    lap("overridable_partial")
     st3 = stream_containers(ctx, cases, wf, meta)
     lap("containers")
     ir_diffs = stream_ir_path(ctx, 20 if quick else 60)
@@ -1921,6 +2170,16 @@ def run(ctx):
                        "functions table (extracted body = matched nodes in graph order behind the copied constants, least unused overload, "
                        "imports filtered from the parent), node and value metadata_props observed when the sweep ended", not sdiff,
                        "; ".join(f"{k}:{v}" for k, v in list(sdiff.items())[:5]))
+    if failing is not None:
+        copied = [c for c in COPIED_INPUTS if c.split("/")[0] not in violated]
+        ctx.obligation(f"as_function: on {len(cases)} replayed sweeps no extraction copies a graph input of the container into the "
+                       "function body (FnConstIn.copied_not_inputs_okb, hypothesis of C07_as_function_copied_initializers_sound)",
+                       not copied, "; ".join(copied[:5]))
+        for c in copied[:5]:
+            ctx.violation("C07:as_function:graph-input-copied-into-function-body",
+                          f"{c}: an operand of the match that is a graph input (an initializer listed in graph.input: a default the "
+                          "caller may override) was baked into the extracted function as a Constant node; "
+                          "C07_copied_graph_input_refuted: not equivalent for an overriding input", {"stream": "replay", "label": c})
     check_sorts(ctx, violated)
     check_fresh_names(ctx)
     check_namefix(ctx)
